@@ -96,6 +96,9 @@ func fullAlphabet() []op {
 		rep("rep1", "1", "1", "3", "'ab'", true),
 		rep("rep2", "2", "2", "2", "'aab'", false),
 		rep("rep3", "3", "NULL", "1", "'b'", false),
+		// one REPLACE carrying the same (possibly absent) primary key twice: the second row replaces
+		// the first inside the statement (delete of a row that only exists in the pending edits)
+		{Name: "rep4-twice", Kind: "replace", T: "replace into t values (4,3,NULL,'d'),(4,2,NULL,'e')", U: []string{"insert into u values (4,2,NULL,'e')"}, RepA: "4", Quick: true},
 		dml("truncate", "truncate", "truncate table %T", true),
 		ddl("drop-kb", "drop-index", "alter table t drop index kb", true),
 		ddl("create-kb", "create-index", "create index kb on t (b)", true),
